@@ -630,7 +630,14 @@ func parseAlert(ID string, alert *gtfsrt.Alert, opts *ParseRealtimeOptions) (*Al
 		informedEntities = append(informedEntities, informedEntity)
 	}
 
-	for routeID, directions := range informedRoutesFromTripIDs {
+	// Iterate over the routes in sorted order so that the output is deterministic.
+	var routeIDsFromTripIDs []string
+	for routeID := range informedRoutesFromTripIDs {
+		routeIDsFromTripIDs = append(routeIDsFromTripIDs, routeID)
+	}
+	sort.Strings(routeIDsFromTripIDs)
+	for _, routeID := range routeIDsFromTripIDs {
+		directions := informedRoutesFromTripIDs[routeID]
 		if informedRoutes[routeID] {
 			continue
 		}
